@@ -70,10 +70,24 @@ def run(tier):
         sk = pypi_skeleton(rnd, q)
         sk["alt"] = i
         pj.append(dict(base, harness="VerifC05PyPI", params=sk))
+    # concurrency clause, decided sequentially (shared-state discipline on one Resolve call)
+    rnd2 = random.Random(20261005)
+    ns = 40 if q else 600
+    for i in range(ns):
+        sk = c06.skeleton2(rnd2, alias_p=0.2 if i % 3 == 0 else 0.0)
+        sk.update(warm=i % 2, alt=i)
+        nj.append(dict(base, harness="VerifC05NpmShared", params=sk))
+        sk = maven_skeleton(rnd2, q)
+        sk.update(warm=i % 2, alt=i)
+        mj.append(dict(base, harness="VerifC05MavenShared", params=sk))
+        sk = pypi_skeleton(rnd2, q)
+        sk.update(warm=0, alt=i)
+        pj.append(dict(base, harness="VerifC05PyPIShared", params=sk))
     return run_property("C05", tier, [Group("rpypi", pj), Group("rnpm", nj), Group("rmaven", mj)],
                         required_covers=["one requirement filtered out by its marker", "some version matched", "resolved without a graph error",
-                                         "resolved a graph with dependencies", "other root resolved in between"],
+                                         "resolved a graph with dependencies", "other root resolved in between",
+                                         "one Resolve call checked against the shared-state discipline", "shared resolver warmed up by an earlier resolution"],
                         assumptions=["sequential clauses only: the client reports the same data after Resolve; asking again, resolving another root in between and inserting the versions in the opposite order give the same canonical graph",
                                      "universe skeletons as in C06/C07/C08 (fixed pseudo-random sample, symbolic version numbers)",
-                                     "concurrent Resolve calls are not decided: the engine has no scheduler"],
+                                     "concurrency clause, decided sequentially: on every feasible path of one Resolve call, objects that existed before the call (client, shared resolver, package variables) are written only under an exclusive lock or through sync/atomic, and those that are written are read only under a lock (reads are tracked for pointer loads and map lookups, not for slice indexing); goroutine interleavings themselves are not explored - the engine has no scheduler; a counterexample is replayed natively as eight concurrent Resolve calls under the race detector"],
                         bounds={"skeletons_per_resolver": n, "packages": 3, "versions": 3})
